@@ -9,6 +9,8 @@
    create_proof sends nothing except the Get of its internal read of a block that is not held.
    Partial by nature: that every subscriber receives the same sequence is a property of async_broadcast
    (capacity 32), covered by tools/c13.py with 1-3 subscribers and < 32 undrained events. *)
+From HC Require AnyProofCorEx.
+From HC Require Import AnyProofLib AnyProof AnyProofCorLib AnyProofCor.
 From HC Require SrcOrder OrderTie.
 From HC Require Import SoundCoreLib SoundCore ReplicaCor.
 From HC Require Import Base NMap Codec Crypto FlatTree Storage Bitfield Oplog Merkle Core CoreFacts.
@@ -227,6 +229,44 @@ Theorem C13_source_events_after_last_storage_operation :
   OrderTie.tied_order SrcOrder.src_order_flush_bitfield_and_tree_and_oplog OrderTie.model_order_flush.
 Proof. exact OrderTie.source_order_is_the_models. Qed.
 
+Theorem C13_apply_any_accepted :
+  forall cr : crypto,
+         (forall x : bytes, Datatypes.length (cr_hash cr x) = 32%nat) ->
+         forall bs : list bytes,
+         writer_fits bs ->
+         forall (f : option bool) (pf : proof) (c : core) (w : world) (c' : core) (w' : world),
+         HBInv cr bs c (w_disk w) ->
+         proof_wire pf ->
+         core_apply_proof cr f pf c w = (c', w', Ok true) ->
+         HBInv cr bs c' (w_disk w') /\
+         t_length (c_tree c) <= t_length (c_tree c') /\
+         (forall b : data_block,
+          p_block pf = Some b -> db_value b = TreeRef.blk bs (db_index b) /\ db_index b < t_length (c_tree c')) /\
+         (forall i : N, core_has c' i = core_has c i || carried pf i) \/
+         Sound.some_collision cr \/ forged_signature cr bs (kp_public (c_keypair c)).
+Proof. exact apply_any_accepted_HBInv. Qed.
+
+Theorem C13_any_history_avail :
+  forall cr : crypto,
+         (forall x : bytes, Datatypes.length (cr_hash cr x) = 32%nat) ->
+         forall bs : list bytes,
+         writer_fits bs ->
+         forall (ops : list op) (c : core) (w : world) (c' : core) (w' : world) (oks : list bool),
+         HBInv cr bs c (w_disk w) ->
+         kp_secret (c_keypair c) = None ->
+         Forall (any_op cr) ops ->
+         run_ops cr ops c w = (c', w', oks) ->
+         HBInv cr bs c' (w_disk w') /\
+         c_keypair c' = c_keypair c /\
+         t_length (c_tree c) <= t_length (c_tree c') /\
+         (exists evs : list event,
+            w_events w' = evs ++ w_events w /\
+            (forall i : N, core_has c i || announced evs i = true -> core_has c' i = true) /\
+            (applies_ok ops oks -> forall i : N, core_has c' i = core_has c i || announced evs i) /\
+            (forall i : N, announced evs i = true -> i < t_length (c_tree c'))) \/
+         Sound.some_collision cr \/ forged_signature cr bs (kp_public (c_keypair c)).
+Proof. exact any_history_avail. Qed.
+
 Print Assumptions C13_append_events.
 Print Assumptions C13_apply_events.
 Print Assumptions C13_get_events.
@@ -253,3 +293,6 @@ Print Assumptions C13_replica_bits_below_length.
 Print Assumptions C13_accepted_proof_keeps_bits_below_length.
 Print Assumptions C13_replica_history_availability.
 Print Assumptions C13_source_events_after_last_storage_operation.
+Print Assumptions C13_apply_any_accepted.
+Print Assumptions C13_any_history_avail.
+Print Assumptions AnyProofCorEx.sc_any_history_applies.
